@@ -505,7 +505,24 @@ func c10Gen(t *rapid.T) c10Case {
 	if rapid.IntRange(0, 5).Draw(t, "circleprobe") == 0 {
 		// X may be a Circle: "within X iff non-empty and every child is within X" goes through Circle.Contains
 		c.Probe = objSpec{Kind: "Circle", Pts: []fpt{{F(rapid.IntRange(3, 11).Draw(t, "ccx")), F(rapid.IntRange(3, 11).Draw(t, "ccy"))}},
-			Radius: F(rapid.SampledFrom([]float64{0, 30000, 120000, 250000, 400000, 700000, 2e6}).Draw(t, "cr")), Steps: 64}
+			Radius: F(rapid.SampledFrom([]float64{0, 30000, 120000, 250000, 400000, 700000, 2e6, 2e6, 3e6, 5e6}).Draw(t, "cr")), Steps: 64}
+	}
+	if c.Probe.Kind == "Circle" && float64(c.Probe.Radius) >= 2e6 && (c.Coll.Kind == "GeometryCollection" || c.Coll.Kind == "FeatureCollection") && rapid.Bool().Draw(t, "deepempty") {
+		// a circle that covers every child, and an empty part two levels down: the collection is within the circle
+		// exactly when no part at any level is empty
+		inner := c.Coll
+		if rapid.IntRange(0, 2).Draw(t, "deepemptyadd") > 0 {
+			e := objSpec{Kind: rapid.SampledFrom([]string{"MultiPoint", "GeometryCollection"}).Draw(t, "deepemptykind")}
+			at := rapid.IntRange(0, len(inner.Children)).Draw(t, "deepemptyat")
+			kids := append([]objSpec{}, inner.Children[:at]...)
+			kids = append(kids, e)
+			inner.Children = append(kids, inner.Children[at:]...)
+		}
+		outer := []objSpec{inner}
+		if rapid.Bool().Draw(t, "deepemptysib") {
+			outer = append(outer, objSpec{Kind: "Point", Pts: []fpt{{5, 5}}})
+		}
+		c.Coll = objSpec{Kind: "GeometryCollection", Children: outer}
 	}
 	x0, y0 := rapid.IntRange(2, 12).Draw(t, "qx0"), rapid.IntRange(2, 12).Draw(t, "qy0")
 	c.Query = [4]int{x0, y0, x0 + rapid.IntRange(0, 5).Draw(t, "qw"), y0 + rapid.IntRange(0, 5).Draw(t, "qh")}
